@@ -32,6 +32,8 @@ def _work(args):
     from pyvc.solve import discharge_safe as discharge
     P, _ = load_prop(pid)
     c = P.contracts[cname]
+    # contracts whose obligations are known to be slow carry their own budget (sized so that verdicts do not flip under load)
+    timeout_ms = max(timeout_ms, int(getattr(c, 'solver_ms', 0) or 0))
     res = dict(contract=cname, target=c.target, kind=c.kind, level=c.level, obligations=[], error=None, gen_s=0.0,
                file=None, lines=None, sha=None, notes=[])
     t0 = time.time()
